@@ -13,7 +13,7 @@ Rects(angles) == {R("rect", b[1], b[2], b[3], b[4], 0, 0, 0, 0, a, "-") :
                     b \in {<<-30, 30, -20, 20>>, <<-40, 0, -10, 50>>, <<0, 10, -60, 60>>, <<-30, -30, 0, 20>>}, a \in angles}
 Circles == {R("circle", 0, 0, 0, 0, c[1], c[2], c[3], 0, A0, "-") : c \in {<<0, 0, 35>>, <<10, -20, 30>>, <<0, 0, 50>>, <<20, 20, 0>>}}
 Ellipses(angles) == {R("ellipse", 0, 0, 0, 0, c[1], c[2], c[3], c[4], a, "-") :
-                       c \in {<<0, 0, 40, 20>>, <<10, 10, 25, 25>>, <<-10, 0, 50, 5>>}, a \in angles}
+                       c \in {<<0, 0, 40, 20>>, <<10, 10, 25, 25>>, <<-10, 0, 50, 5>>, <<0, 0, 20, 40>>, <<10, -10, 5, 45>>}, a \in angles}
 Annuli == {R("annulus", 0, 0, 0, 0, 0, 0, 50, 20, A0, "-"), R("annulus", 0, 0, 0, 0, 10, -10, 30, 10, A0, "-")}
 Ranges == {R("xrange", -25, 35, 0, 0, 0, 0, 0, 0, A0, "-"), R("yrange", 0, 0, -40, -10, 0, 0, 0, 0, A0, "-"),
            R("xrange", 10, 10, 0, 0, 0, 0, 0, 0, A0, "-")}
